@@ -477,17 +477,21 @@ package godi
 //@   ghost ownVal any
 //@   at before call s.setInstance#2 : ghost ownVal := ite(regDescriptor == descriptor, value, ownVal)
 //@   at before call s.setInstance#2 : ghost ownSeen := ownSeen || regDescriptor == descriptor
-//@   at before return#12 : assert[C04,C01] returned_value_is_what_was_stored_for_this_registration: len(descriptor.outputs) > 0 && ownSeen ==> ownVal == primaryService
-//@   at before return#12 : assert[C10,C01] stored_values_are_result_fields: ncalls("scope.setInstance") <= len(registrations)
+// C02/C15 'a failed construction yields no instance', 'a failed resolution is not cached': when the constructor left the requested field nil,
+// nothing of this invocation is stored (the instances the scope already holds for the other fields keep their identity)
+//@   at before return#10 : assert[C02,C15] requested_field_missing_stores_nothing: ncalls("scope.setInstance") == 0 && ncalls("scope.setAliasedInstance") == 0
+//@   at before return#10 : assert[C10] what_was_produced_stays_owned: ncalls("scope.trackUnstored") == 1 && callarg("scope.trackUnstored", 0, 0) == s && callarg("scope.trackUnstored", 0, 1) == descriptor.Lifetime && callarg("scope.trackUnstored", 0, 2) == registrations
+//@   at before return#13 : assert[C04,C01] returned_value_is_what_was_stored_for_this_registration: len(descriptor.outputs) > 0 && ownSeen ==> ownVal == primaryService
+//@   at before return#13 : assert[C10,C01] stored_values_are_result_fields: ncalls("scope.setInstance") <= len(registrations)
 //@        && (forall c int :: 0 <= c && c < ncalls("scope.setInstance") ==> (exists i int :: 0 <= i && i < len(registrations) && callarg("scope.setInstance", c, 3) == registrations[i].Value))
-//@   at before return#13 : assert[C15] nil_output_stores_nothing: ncalls("scope.setInstance") == 0 && ncalls("scope.setAliasedInstance") == 0
-//@   at before return#15 : assert[C10,C01] every_return_value_stored: forall j int :: 0 <= j && j < len(info.Returns) && !info.Returns[j].IsError && pure("Descriptor.outputForReturn", descriptor, info.Returns[j].Index) != nil && !outputSkipped(s.rootProvider, descriptor, pure("Descriptor.outputForReturn", descriptor, info.Returns[j].Index)) ==>
+//@   at before return#14 : assert[C15] nil_output_stores_nothing: ncalls("scope.setInstance") == 0 && ncalls("scope.setAliasedInstance") == 0
+//@   at before return#16 : assert[C10,C01] every_return_value_stored: forall j int :: 0 <= j && j < len(info.Returns) && !info.Returns[j].IsError && pure("Descriptor.outputForReturn", descriptor, info.Returns[j].Index) != nil && !outputSkipped(s.rootProvider, descriptor, pure("Descriptor.outputForReturn", descriptor, info.Returns[j].Index)) ==>
 //@        (exists c int :: 0 <= c && c < ncalls("scope.setInstance") && callarg("scope.setInstance", c, 3) == ext("(reflect.Value).Interface", "any", results[info.Returns[j].Index]))
-//@   at before return#15 : assert[C10] unstored_outputs_are_still_owned: forall j int :: 0 <= j && j < len(info.Returns) && !info.Returns[j].IsError ==>
+//@   at before return#16 : assert[C10] unstored_outputs_are_still_owned: forall j int :: 0 <= j && j < len(info.Returns) && !info.Returns[j].IsError ==>
 //@        (exists c int :: 0 <= c && c < ncalls("scope.setInstance") && callarg("scope.setInstance", c, 3) == ext("(reflect.Value).Interface", "any", results[info.Returns[j].Index]))
 //@        || (exists c int :: 0 <= c && c < ncalls("scope.trackOnly") && callarg("scope.trackOnly", c, 0) == s && callarg("scope.trackOnly", c, 2) == ext("(reflect.Value).Interface", "any", results[info.Returns[j].Index]))
-//@   at before return#16 : assert[C15] nil_result_stores_nothing: ncalls("scope.setInstance") == 0 && ncalls("scope.setAliasedInstance") == 0
-//@   at before return#17 : assert[C01,C02,C03,C10] single_output_stored_once: ncalls("scope.setInstance") == 0 && ncalls("scope.setAliasedInstance") == 1 && callarg("scope.setAliasedInstance", 0, 0) == s
+//@   at before return#17 : assert[C15] nil_result_stores_nothing: ncalls("scope.setInstance") == 0 && ncalls("scope.setAliasedInstance") == 0
+//@   at before return#18 : assert[C01,C02,C03,C10] single_output_stored_once: ncalls("scope.setInstance") == 0 && ncalls("scope.setAliasedInstance") == 1 && callarg("scope.setAliasedInstance", 0, 0) == s
 //@        && callarg("scope.setAliasedInstance", 0, 1) == descriptor && callarg("scope.setAliasedInstance", 0, 2) == instance && instance != nil
 //@   loop 1
 //@     invariant stored_are_instances: forall c int :: 0 <= c && c < ncalls("scope.setInstance") ==> callarg("scope.setInstance", c, 3) != nil
@@ -509,6 +513,26 @@ package godi
 //@     invariant unstored_outputs_are_still_owned: forall j int :: 0 <= j && j < idx && !info.Returns[j].IsError ==>
 //@        (exists c int :: 0 <= c && c < ncalls("scope.setInstance") && callarg("scope.setInstance", c, 3) == ext("(reflect.Value).Interface", "any", results[info.Returns[j].Index]))
 //@        || (exists c int :: 0 <= c && c < ncalls("scope.trackOnly") && callarg("scope.trackOnly", c, 0) == s && callarg("scope.trackOnly", c, 2) == ext("(reflect.Value).Interface", "any", results[info.Returns[j].Index]))
+//
+//@ func scope.producedFor
+//@   mode conc
+//@   nopanic
+//@   safety[C15,C02]
+//@   requires recv: s != nil && s.rootProvider != nil && descriptor != nil
+//@   ensures[C02,C15] a_value_of_the_result_object_or_nil: result == nil || (exists i int :: 0 <= i && i < len(registrations) && result == registrations[i].Value)
+//@   ensures[C02,C15] stores_nothing: ncalls("scope.setInstance") == 0 && ncalls("scope.trackOnly") == 0
+//
+//@ func scope.trackUnstored
+//@   mode conc
+//@   interferes
+//@   nopanic
+//@   safety[C15,C10]
+//@   requires recv: s != nil && s.rootProvider != nil
+//@   ensures[C10] every_value_stays_owned: ncalls("scope.trackOnly") == len(registrations) && (forall i int :: 0 <= i && i < len(registrations) ==>
+//@        callarg("scope.trackOnly", i, 0) == s && callarg("scope.trackOnly", i, 1) == lifetime && callarg("scope.trackOnly", i, 2) == registrations[i].Value)
+//@   loop 1
+//@     invariant tracked_so_far: ncalls("scope.trackOnly") == idx && (forall i int :: 0 <= i && i < idx ==>
+//@        callarg("scope.trackOnly", i, 0) == s && callarg("scope.trackOnly", i, 1) == lifetime && callarg("scope.trackOnly", i, 2) == registrations[i].Value)
 //
 // ---------------------------------------------------------------------------------------------
 // Entry points: a disposed scope / provider refuses work (C13), arguments are validated (C15).
